@@ -769,10 +769,6 @@ func (vfs *OrefaFS) Rename(oldname, newname string) error {
 	oAbsPath, _ := vfs.Abs(oldname)
 	nAbsPath, _ := vfs.Abs(newname)
 
-	if oAbsPath == nAbsPath {
-		return nil
-	}
-
 	oDirName, oFileName := avfs.SplitAbs(vfs, oAbsPath)
 	nDirName, nFileName := avfs.SplitAbs(vfs, nAbsPath)
 
@@ -785,6 +781,10 @@ func (vfs *OrefaFS) Rename(oldname, newname string) error {
 
 	if !oChildOk || !oParentOk || !nParentOk {
 		return &os.LinkError{Op: op, Old: oldname, New: newname, Err: vfs.err.NoSuchFile}
+	}
+
+	if oAbsPath == nAbsPath {
+		return nil
 	}
 
 	if !nParent.mode.IsDir() {
@@ -805,12 +805,24 @@ func (vfs *OrefaFS) Rename(oldname, newname string) error {
 		return &os.LinkError{Op: op, Old: oldname, New: newname, Err: err}
 	}
 
+	if nChild == oChild {
+		// old and new are hard links to the same file : nothing to do.
+		return nil
+	}
+
 	nParent.mu.Lock()
 	defer nParent.mu.Unlock()
 
 	if nParent != oParent {
 		oParent.mu.Lock()
 		defer oParent.mu.Unlock()
+	}
+
+	if nChildOk {
+		// the replaced file loses this name.
+		nChild.mu.Lock()
+		nChild.remove()
+		nChild.mu.Unlock()
 	}
 
 	nParent.addChild(nFileName, oChild)
